@@ -52,7 +52,10 @@ def segment_env(env_spec, repo, tmpdir=None):
            "PYTHONDONTWRITEBYTECODE": "", "PYTHONWARNINGS": "ignore"}
     env.update(ENVS[env_spec.get("locale", "utf8")])
     if env_spec.get("optimize"):
-        env["PYTHONOPTIMIZE"] = "1"      # python -O: assert statements are compiled away
+        # python -O: assert statements are compiled away; -OO: docstrings are dropped as well
+        env["PYTHONOPTIMIZE"] = str(int(env_spec["optimize"]))
+    if env_spec.get("warn_error"):
+        env["PYTHONWARNINGS"] = "error::UserWarning"   # the embedding application runs -W error
     return env
 
 
@@ -98,7 +101,9 @@ def execute_replica(plan, ridx, repo):
             disk_cfg = dict(seg.get("disk_cfg", {}))
             disk_cfg.update(replica.get("disk_cfg", {}))
             env_tags = ["env.locale_" + env_spec.get("locale", "utf8")] + (
-                ["env.python_O"] if env_spec.get("optimize") else []) + [
+                ["env.python_O%d" % int(env_spec["optimize"])] if env_spec.get("optimize")
+                else []) + (["env.warnings_error"] if env_spec.get("warn_error") else []) + (
+                ["env.log_debug"] if env_spec.get("log_debug") else []) + [
                         "env.default_encoding_" + str(disk_cfg.get("default_encoding", "utf-8"))]
             if disk_cfg.get("short_w"):
                 env_tags.append("env.short_writes")
@@ -111,6 +116,7 @@ def execute_replica(plan, ridx, repo):
                    "disk_cfg": disk_cfg, "cwd": seg.get("cwd", "."),
                    "mkdirs": plan.get("mkdirs", []), "files": files, "ops": seg["ops"],
                    "env_tags": env_tags, "frame_check": plan.get("frame_check", True),
+                   "log_debug": bool(env_spec.get("log_debug")),
                    "clock_ticks": ticks}
             # the run's private temporary directory: anything the library leaves in
             # tempfile.gettempdir() survives a restart of the run, never leaks into another run
@@ -251,6 +257,8 @@ def compare_replicas(plan, per_replica):
                 op = byi[rec["i"]]
                 if op.get("fault") is not None or plan["replicas"][ridx].get("faulty"):
                     continue
+                if rec.get("outcome") == "skipped" or ref.get("outcome") == "skipped":
+                    continue    # (an isolated lane may not find a file another lane writes)
                 fmt = op.get("fmt") or op.get("name") or ""
                 site = "%s:%s" % (op["op"], fmt)
                 tags = ["env.replica_differs", "fmt." + fmt] + list(op.get("tags", []))
